@@ -49,7 +49,8 @@ func RegisteredTypes() map[string](func() flows.Action) {
 	return registeredTypes
 }
 
-var uuidRegex = regexp.MustCompile(`^[0-9a-fA-F]{8}-[0-9a-fA-F]{4}-[0-9a-fA-F]{4}-[0-9a-fA-F]{4}-[0-9a-fA-F]{12}$`)
+// what a contact reference accepts as UUID when it is read (a lower-case version 4 UUID)
+var contactUUIDRegex = regexp.MustCompile(`^[0-9a-f]{8}-[0-9a-f]{4}-4[0-9a-f]{3}-[89ab][0-9a-f]{3}-[0-9a-f]{12}$`)
 
 // the base of all action types
 type baseAction struct {
@@ -229,9 +230,9 @@ func (a *otherContactsAction) resolveRecipients(run flows.Run, logEvent flows.Ev
 
 		evaluatedLegacyVar = strings.TrimSpace(evaluatedLegacyVar)
 
-		if uuidRegex.MatchString(evaluatedLegacyVar) {
+		if contactUUIDRegex.MatchString(strings.ToLower(evaluatedLegacyVar)) {
 			// if variable evaluates to a UUID, we assume it's a contact UUID
-			contactRefs = append(contactRefs, flows.NewContactReference(flows.ContactUUID(evaluatedLegacyVar), ""))
+			contactRefs = append(contactRefs, flows.NewContactReference(flows.ContactUUID(strings.ToLower(evaluatedLegacyVar)), ""))
 
 		} else if groupByName := groupSet.FindByName(evaluatedLegacyVar); groupByName != nil {
 			// next up we look for a group with a matching name
